@@ -5,11 +5,12 @@ import OpdaProofs.NoisySmooth
 import OpdaProofs.NoisyHolder
 import OpdaProofs.NoisyConv
 import OpdaProofs.NoisyTable
+import OpdaProofs.NoisyLaw
 /-!
 # C06 — NoisyQuadratic cdf/pdf equal the quadratic law convolved with normal noise  *(proof, partial)*
 
 Property theorems only (lemmas live in `OpdaProofs/NoisyLogic.lean`, `NoisyReal.lean`,
-`GaussMoments.lean`).  All statements are about `Opda.Noisy.cdf / pdf / partialMoment…`, the single
+`GaussMoments.lean`, `NoisyConv.lean`, `NoisyTable.lean`, `NoisyLaw.lean`).  All statements are about `Opda.Noisy.cdf / pdf / partialMoment…`, the single
 polymorphic definition that the driver evaluates at `Float` (`Opda.NoisyF.cdf F d y := Opda.Noisy.cdf F d y`)
 and that is tied to `NoisyQuadraticDistribution.cdf/pdf` by `harness/corr_C06.py` on every run.  `Float`
 is opaque to the kernel, so nothing is (or can be) proved *at* `Float`; the theorems hold
@@ -29,11 +30,22 @@ is opaque to the kernel, so nothing is (or can be) proved *at* `Float`; the theo
 **Not theorems** (decided every run by the correspondence + the mpmath oracle; the evidence says so):
 the 2.5e-5 / 1e-4 / 0.2 / 5e-5 accuracy figures (the proved bounds for odd `c` are `1.02·max_error`, up to 8e-4 for the
 cdf of `c = 1`: weaker than 2.5e-5), the accuracy of the Chebyshev fallback, of the
-downward step for `k = −½` and of the `normal` regime, float rounding, `Φ(±∞) ∈ {0,1}` at `Float`, the
-step from "law of `Z + E`" to its mixture form `∫ Φ((y−z)/o) dF_Z(z)` (independence + Fubini; the mixture form
-is taken as the Spec here and is what the oracle integrates; likewise the mixture density for the pdf).  Both constants of the
+downward step for `k = −½` and of the `normal` regime, float rounding, `Φ(±∞) ∈ {0,1}` at `Float`.  Both constants of the
 noiseless regime *are* proved: `0.4·c·o/(b−a)` for `c ≥ 2` (`noiseless_bound`) and `0.83·√(o/(b−a))` for `c = 1`
 (`noiseless_bound_c1`).
+
+**The Spec is literally `P[Z + E ≤ y]`** (section `law`, lemmas in `OpdaProofs/NoisyLaw.lean`): the theorems above are stated
+with the *mixture form* `H(t) = ∫₀¹ Φ((t−x)/s) d(x^{c/2})` (which is also what the oracle integrates); the step from "law of
+`Z + E`" to it — independence ⇒ convolution, Fubini/Tonelli (`law_of_independent_sum`), `N(0,o²)(−∞,x] = Φ(x/o)`
+(`gaussian_noise_cdf`), the law of `Z` as the image of the uniform law under the quadratic part of a draw, with the class's
+`cdf` as distribution function (`quadratic_law_cdf`), and the substitution `x = u^{2/c}` (singular at `0` for `c = 1`) — is
+`spec_is_law_of_sum` / `spec_is_law_of_independent_sum`, for every `a < b`, `c ≥ 1`, `o > 0`, both shapes, every real `y`;
+`cdf_even_model_eq_law_of_sum`, `cdf_c7_c9_law_of_sum_tolerance`, `cdf_odd_shipped_table_law_of_sum_partial` and
+`noiseless_bound(_c1)_law_of_sum` restate the Model-vs-Spec theorems against that probability.  Likewise the density:
+the law of `Z + E` has density `h(loc y)/(b−a)`, `h` the mixture density (`law_of_sum_density`), so for even `c` the
+model's pdf is a density of the law of the sum (`pdf_even_model_is_density_of_law_of_sum`).  Nothing of this step is cited
+any more; what is *assumed* is only the reading of the property: `Z = quadratic part of a uniform draw`, `E ~ N(0, o²)`,
+independent.
 -/
 namespace Opda.Props.C06
 open Opda.Noisy
@@ -263,6 +275,111 @@ theorem noiseless_bound_c1_exactK (d : Params ℝ) (hab : d.a < d.b) (hc : d.c =
 
 end real
 
+/-! ### the Spec is `P[Z + E ≤ y]` (independence + Fubini, `OpdaProofs/NoisyLaw.lean`)
+
+`quadLaw p` is the law of the quadratic part of a draw, `a + (b−a)·U^{2/c}` (convex) resp. `b − (b−a)·(1−U)^{2/c}` (concave),
+`U` uniform on `[0, 1)` (`uniform01`); its distribution function is the noise-free class's `cdf` (`quadratic_law_cdf`): this is
+"`Z ~ Quadratic(a, b, c, shape)`".  `sumLaw d = quadLaw ⟨a, b, c, shape⟩ ∗ N(0, o²)` is the law of `Z + E` for independent
+`Z`, `E` (`law_of_independent_sum`).  The mixture form `H` that the Model = Spec theorems above are stated with *is* its
+distribution function (`spec_is_law_of_sum`), and the mixture density its density (`law_of_sum_density`). -/
+section law
+open MeasureTheory ProbabilityTheory Opda.NoisyLaw
+open scoped NNReal
+
+/-- **independence ⇒ convolution ⇒ conditioning (Fubini)**: `X`, `Y` independent on any probability space ⇒
+`P[X + Y ≤ y] = ∫ P[Y ≤ y − z] d(law of X)(z)`. -/
+theorem law_of_independent_sum {Ω : Type} [MeasurableSpace Ω] (P : Measure Ω) [IsProbabilityMeasure P] (X Y : Ω → ℝ)
+    (hX : Measurable X) (hY : Measurable Y) (hind : IndepFun X Y P) (y : ℝ) :
+    P {ω | X ω + Y ω ≤ y} = ∫⁻ z, (P.map Y) (Set.Iic (y - z)) ∂(P.map X) :=
+  indep_add_Iic P X Y hX hY hind y
+
+/-- the same for the convolution of two laws on `ℝ` -/
+theorem convolution_cdf (μ ν : Measure ℝ) [IsProbabilityMeasure μ] [IsProbabilityMeasure ν] (y : ℝ) :
+    (μ ∗ ν) (Set.Iic y) = ∫⁻ z, ν (Set.Iic (y - z)) ∂μ := conv_Iic μ ν y
+
+/-- Gaussian noise: `N(0, o²)(−∞, x] = Φ(x/o)` with the development's `Φ`; so for every law `μ` of `Z`
+`(μ ∗ N(0, o²))(−∞, y] = ∫ Φ((y − z)/o) dμ(z)`. -/
+theorem gaussian_noise_cdf (o : ℝ) (ho : 0 < o) (x : ℝ) :
+    gaussianReal 0 (NNReal.mk (o ^ 2) (sq_nonneg o)) (Set.Iic x) = ENNReal.ofReal (Phi (x / o)) := gaussian_Iic o ho x
+
+theorem mixture_form_any_law (μ : Measure ℝ) [IsProbabilityMeasure μ] (o : ℝ) (ho : 0 < o) (y : ℝ) :
+    ((μ ∗ gaussianReal 0 (NNReal.mk (o ^ 2) (sq_nonneg o))) (Set.Iic y)).toReal = ∫ z, Phi ((y - z) / o) ∂μ :=
+  conv_gaussian_Iic μ o ho y
+
+/-- `Z ~ Quadratic(a, b, c, shape)`: the distribution function of `quadLaw` is the noise-free class's `cdf` (C05's model) -/
+theorem quadratic_law_cdf (p : Opda.Quad.Params ℝ) (hab : p.a < p.b) (hc : 0 < p.c) (y : ℝ) :
+    quadLaw p (Set.Iic y) = ENNReal.ofReal (Opda.Quad.cdf p y) := quadLaw_Iic p hab hc y
+
+theorem sumLaw_def (d : Params ℝ) :
+    sumLaw d = (uniform01.map (Opda.Sample.noisyQuadPart ⟨d.a, d.b, d.c, d.convex⟩))
+      ∗ gaussianReal 0 (NNReal.mk (d.o ^ 2) (sq_nonneg d.o)) := rfl
+
+/-- **`spec_is_law_of_sum`**: for every `a < b`, `c ≥ 1`, `o > 0`, both shapes and every real `y`, the Spec the theorems
+of this file are stated with — `H((y−a)/(b−a))` (convex) resp. `1 − H((b−y)/(b−a))` (concave),
+`H(t) = ∫₀¹ Φ((t−x)/s) d(x^{c/2})`, `s = o/(b−a)` — is the distribution function at `y` of the convolution of the law of `Z`
+with `N(0, o²)`. -/
+theorem spec_is_law_of_sum (d : Params ℝ) (hab : d.a < d.b) (hc : 1 ≤ d.c) (ho : 0 < d.o) (y : ℝ) :
+    (if d.convex then mixture ((d.c : ℝ) / 2) (d.o / (d.b - d.a)) ((y - d.a) / (d.b - d.a))
+      else 1 - mixture ((d.c : ℝ) / 2) (d.o / (d.b - d.a)) ((d.b - y) / (d.b - d.a)))
+      = ((quadLaw ⟨d.a, d.b, d.c, d.convex⟩ ∗ gaussianReal 0 (NNReal.mk (d.o ^ 2) (sq_nonneg d.o))) (Set.Iic y)).toReal :=
+  spec_is_law d hab hc ho y
+
+/-- … i.e. `P[Z + E ≤ y]` for **any** independent `Z ~ Quadratic(a, b, c, shape)`, `E ~ N(0, o²)` on any probability space -/
+theorem spec_is_law_of_independent_sum {Ω : Type} [MeasurableSpace Ω] (P : Measure Ω) [IsProbabilityMeasure P]
+    (Z E : Ω → ℝ) (hZ : Measurable Z) (hE : Measurable E) (hind : IndepFun Z E P) (d : Params ℝ)
+    (hZlaw : P.map Z = quadLaw ⟨d.a, d.b, d.c, d.convex⟩)
+    (hElaw : P.map E = gaussianReal 0 (NNReal.mk (d.o ^ 2) (sq_nonneg d.o)))
+    (hab : d.a < d.b) (hc : 1 ≤ d.c) (ho : 0 < d.o) (y : ℝ) :
+    (P {ω | Z ω + E ω ≤ y}).toReal
+      = (if d.convex then mixture ((d.c : ℝ) / 2) (d.o / (d.b - d.a)) ((y - d.a) / (d.b - d.a))
+         else 1 - mixture ((d.c : ℝ) / 2) (d.o / (d.b - d.a)) ((d.b - y) / (d.b - d.a))) :=
+  sum_law_is_spec P Z E hZ hE hind d hZlaw hElaw hab hc ho y
+
+/-- **the density**: the law of `Z + E` is absolutely continuous with density `h(loc y)/(b−a)`,
+`h(t) = ∫₀¹ dN(t, s²)(x) d(x^{c/2})` the mixture density the pdf theorems of this file are stated with (every `a < b`,
+`c ≥ 1`, `o > 0`, both shapes). -/
+theorem law_of_sum_density (d : Params ℝ) (hab : d.a < d.b) (hc : 1 ≤ d.c) (ho : 0 < d.o) :
+    sumLaw d = volume.withDensity (fun y => ENNReal.ofReal
+      (mixtureDensity ((d.c : ℝ) / 2) (d.o / (d.b - d.a)) (locOf d y) / (d.b - d.a))) :=
+  sumLaw_withDensity d hab hc ho
+
+variable (T : List (ℕ × List (Entry ℝ))) (ninf pinf : ℝ)
+
+/-- **`cdf_even_model_eq_law_of_sum`** — `cdf_even_convex_model_eq_spec` and `cdf_even_concave_model_eq_spec` with the
+right-hand side as the law of the sum: for even `c ≥ 2`, both shapes, in the series regime, the model's cdf over `ℝ` *is*
+`P[Z + E ≤ y]`. -/
+theorem cdf_even_model_eq_law_of_sum (d : Params ℝ) (k : ℕ) (hk : 1 ≤ k) (hc : d.c = 2 * k) (hab : d.a ≤ d.b)
+    (hp : pointMass (realFns T ninf pinf) d = false) (h : regime (realFns T ninf pinf) d = .nothing) (y : ℝ) :
+    cdf (realFns T ninf pinf) d y = ((sumLaw d) (Set.Iic y)).toReal :=
+  cdf_even_eq_law T ninf pinf d k hk hc hab hp h y
+
+/-- `pdf_even_model_eq_spec` in that form: for even `c ≥ 2` the model's pdf over `ℝ` is a density of the law of `Z + E` -/
+theorem pdf_even_model_is_density_of_law_of_sum (d : Params ℝ) (k : ℕ) (hc : d.c = 2 * k + 2) (hab : d.a ≤ d.b)
+    (hp : pointMass (realFns T ninf pinf) d = false) (h : regime (realFns T ninf pinf) d = .nothing) :
+    sumLaw d = volume.withDensity (fun y => ENNReal.ofReal (pdf (realFns T ninf pinf) d y)) :=
+  pdf_even_is_density T ninf pinf d k hc hab hp h
+
+/-- the quantity the noiseless-regime bounds compare with, the noise-free law smoothed by `N(0, o²)` (conditioning on `E`
+instead of `Z`), is `P[Z + E ≤ y]` too … -/
+theorem noiseless_smoothing_is_law_of_sum (d : Params ℝ) (hab : d.a < d.b) (hc : 1 ≤ d.c)
+    (hp : pointMass (realFns T ninf pinf) d = false) (h : regime (realFns T ninf pinf) d = .noiseless) (y : ℝ) :
+    ∫ e, cdf (realFns T ninf pinf) d (y - e) ∂(gaussianReal 0 ⟨d.o ^ 2, sq_nonneg _⟩)
+      = ((sumLaw d) (Set.Iic y)).toReal :=
+  smoothed_noiseless_is_law T ninf pinf d hab hc hp h y
+
+/-- … so `noiseless_bound` and `noiseless_bound_c1` bound the distance to `P[Z + E ≤ y]` -/
+theorem noiseless_bound_law_of_sum (d : Params ℝ) (hab : d.a < d.b) (hc : 2 ≤ d.c) (ho : 0 < d.o)
+    (hp : pointMass (realFns T ninf pinf) d = false) (h : regime (realFns T ninf pinf) d = .noiseless) (y : ℝ) :
+    |cdf (realFns T ninf pinf) d y - ((sumLaw d) (Set.Iic y)).toReal| ≤ 0.4 * d.c * d.o / (d.b - d.a) :=
+  noiseless_bound_law T ninf pinf d hab hc ho hp h y
+
+theorem noiseless_bound_c1_law_of_sum (d : Params ℝ) (hab : d.a < d.b) (hc : d.c = 1) (ho : 0 < d.o)
+    (hp : pointMass (realFns T ninf pinf) d = false) (h : regime (realFns T ninf pinf) d = .noiseless) (y : ℝ) :
+    |cdf (realFns T ninf pinf) d y - ((sumLaw d) (Set.Iic y)).toReal| ≤ 0.83 * Real.sqrt (d.o / (d.b - d.a)) :=
+  noiseless_bound_c1_law T ninf pinf d hab hc ho hp h y
+
+end law
+
 /-! ### end to end with the shipped table (C06 ∘ C19)
 
 `tableR := castTable Opda.Gen.tableQ`: the table regenerated from `/repo/src/opda/_approximations.json` on every run, every
@@ -353,6 +470,23 @@ theorem pdf_c9_shipped_table_tolerance (d : Params ℝ) (hc : d.c = 9) (hab : d.
         - mixtureDensity ((d.c : ℝ) / 2) (d.o / (d.b - d.a)) (locOf d y)| ≤ 1e-4 :=
   Opda.Noisy.pdf_c9_shipped ninf pinf d hc hab hp h y
 
+/-- `cdf_odd_shipped_table_uniform_partial` against the law of the sum: odd `c` with a row, both shapes, series regime,
+every real `y`: `|cdf(y) − P[Z + E ≤ y]| ≤ 1.02 ·` (largest `max_error` of the row).  `_partial` as above. -/
+theorem cdf_odd_shipped_table_law_of_sum_partial (d : Params ℝ) (k : ℕ) (hc : d.c = 2 * k + 1) (hab : d.a ≤ d.b)
+    (hp : pointMass (realFns tableR ninf pinf) d = false) (h : regime (realFns tableR ninf pinf) d = .nothing)
+    (row : ℕ × List EntryQ) (hrow : rowOf tableQ d.c = some row) (y : ℝ) :
+    |cdf (realFns tableR ninf pinf) d y - ((Opda.NoisyLaw.sumLaw d) (Set.Iic y)).toReal|
+      ≤ 1.02 * (rowMaxError row : ℝ) :=
+  Opda.NoisyLaw.cdf_odd_shipped_uniform_law ninf pinf d k hc hab hp h row hrow y
+
+/-- `cdf_c7_c9_shipped_table_tolerance` against the law of the sum: **`|cdf(y) − P[Z + E ≤ y]| ≤ 2.5e-5`** for
+`c ∈ {7, 9}`, both shapes, every scale of the series regime and every real `y`, in exact real arithmetic. -/
+theorem cdf_c7_c9_law_of_sum_tolerance (d : Params ℝ) (hc : d.c = 7 ∨ d.c = 9) (hab : d.a ≤ d.b)
+    (hp : pointMass (realFns tableR ninf pinf) d = false) (h : regime (realFns tableR ninf pinf) d = .nothing)
+    (y : ℝ) :
+    |cdf (realFns tableR ninf pinf) d y - ((Opda.NoisyLaw.sumLaw d) (Set.Iic y)).toReal| ≤ 2.5e-5 :=
+  Opda.NoisyLaw.cdf_c7_c9_shipped_law ninf pinf d hc hab hp h y
+
 end shipped
 
 /-! ### non-vacuity -/
@@ -394,6 +528,16 @@ example (cv : Bool) : pointMass (realFns tableR 0 0) { a := 0, b := 1, c := 3, o
   refine ⟨?_, ?_, shipped_table_keys 3 (by simp), shipped_table_keys 1 (by simp)⟩
   · rw [Bool.eq_false_iff, Ne, pointMass_iff (realFns_lawful tableR 0 0)]; norm_num
   · rw [regime_nothing_iff (realFns_lawful tableR 0 0)]; norm_num
+
+/-- the hypotheses of `spec_is_law_of_independent_sum` are satisfiable: on the product space `ℝ × ℝ` with the product of the
+two laws the coordinates are independent with the required laws (`a=0, b=1, c=1, o=1/10`, concave) -/
+example : ∃ (P : MeasureTheory.Measure (ℝ × ℝ)) (_ : MeasureTheory.IsProbabilityMeasure P) (Z E : ℝ × ℝ → ℝ)
+    (d : Params ℝ), Measurable Z ∧ Measurable E ∧ ProbabilityTheory.IndepFun Z E P
+      ∧ P.map Z = Opda.NoisyLaw.quadLaw ⟨d.a, d.b, d.c, d.convex⟩
+      ∧ P.map E = ProbabilityTheory.gaussianReal 0 (NNReal.mk (d.o ^ 2) (sq_nonneg d.o))
+      ∧ d.a < d.b ∧ 1 ≤ d.c ∧ 0 < d.o :=
+  Opda.NoisyLaw.exists_independent_pair { a := 0, b := 1, c := 1, o := 1/10, convex := false }
+    (by norm_num) (by norm_num) (by norm_num)
 
 end Opda.Props.C06
 
